@@ -236,7 +236,11 @@ def exec_stmt(ctx, st, env, cond):
                     # defined on one branch only: possibly-undefined on the other
                     a = a if a is not None else ("undef", k)
                     b = b if b is not None else ("undef", k)
-                merged[k] = merge_phi(c, a, b)
+                if a != b and a[0] == "list" and b[0] == "list" and len(a) == len(b):
+                    # a local list updated in place on one branch: merge element by element, so that later item reads / stores still see a list
+                    merged[k] = ("list",) + tuple(merge_phi(c, x, y) for x, y in zip(a[1:], b[1:]))
+                else:
+                    merged[k] = merge_phi(c, a, b)
             c1, c2 = f1[0].cond, f2[0].cond
             if c1 == T.land(cond, c) and c2 == T.land(cond, T.lnot(c)):
                 mc = cond
